@@ -1,2 +1,18 @@
 import SpoxModel.Props.C11
 /-! `#print axioms` for every property theorem of C11; parsed by ./check. -/
+#print axioms C11.emit_slots
+#print axioms C11.emit_slots_exact
+#print axioms C11.emit_slots_index
+#print axioms C11.emit_slots_present
+#print axioms C11.slot_position
+#print axioms C11.emit_slots_custom
+#print axioms C11.emit_attrs
+#print axioms C11.table_conforms
+#print axioms C11.entryOK_sound
+#print axioms C11.conforming_call
+#print axioms C11.shipped_call
+#print axioms C11.table_conforms_except
+#print axioms C11.constant_sparse_value_counterexample
+#print axioms C11.group_normalization_deprecated_counterexample
+#print axioms C11.outputs_never_omitted
+#print axioms C11.batchnorm_outputs_counterexample
